@@ -30,7 +30,10 @@ def run(ck):
     wops = ("Put", "Bcast", "Delete", "GC", "SetMode")
     wit = [dict(scenario="degraded-read", cat="c20s", ops=wops, modes=MODES, inflight=1),
            dict(scenario="partial-removal", cat="c20s", ops=wops, modes=MODES, inflight=1),
-           dict(scenario="two-copies-removed", cat="c20s", ops=wops + ("FailGet",), modes=MODES, inflight=1)]
+           dict(scenario="two-copies-removed", cat="c20s", ops=wops + ("FailGet",), modes=MODES, inflight=1),
+           # the shard that knows the tombstone follows a degraded one; Put of an object whose tombstone only a later shard has
+           dict(scenario="removed-behind-degraded", cat="c20s", ops=wops, modes=MODES, inflight=1),
+           dict(scenario="put-after-tombstone", cat="c20s", ops=wops, modes=MODES, inflight=1)]
     if thorough:
         wit += [dict(scenario="second-pass", cat="c20", ops=wops + ("FailGet",), modes=MODES, inflight=1),
                 dict(scenario="degraded-read", cat="c20s", ns=3, ops=wops, modes=MODES, inflight=1),
@@ -51,5 +54,5 @@ def run(ck):
             raise vkit.Infra("vacuous run: degraded / read-only modes were not exercised")
     ck.assumptions.append("per-shard metabase behaviour is summarised in Engine.tla and validated on every step through the per-shard projection")
     ck.assumptions.append("degraded mode = DEGRADED_READ_ONLY (DEGRADED read-write is excluded: writes there are not indexed until a resync); "
-                          "write-cache disabled; error threshold 0; no shard is added or removed; an object is not put again after a removal "
-                          "of it was accepted or partially applied; split objects are not in the catalogue (EC part is)")
+                          "write-cache disabled; error threshold 0; no shard is added or removed; once an object is stored again after an accepted "
+                          "removal (or a removal failed half-way) its per-object status is undetermined and only conformance is checked; split objects are not in the catalogue (EC part is)")
